@@ -26,4 +26,17 @@ def holdsStream (ss sb : List String) (hasRet : Bool) (retCls retState : String)
   -- single Run on a fresh runnable: Stopped iff nil, Error otherwise
   && (!hasRet || !single || (if retCls == "nil" then retState == "Stopped" else retState == "Error"))
 
+/-- known finding C08-F1: `getStateChanInternal` subscribes to the broadcast first and reads the current
+state afterwards; when two transitions fall into that window the subscriber receives the *newer* state
+first and the older queued one after it.  Recognised shape: everything but the first element of `sb`
+is a suffix of `ss`, the first element occurs again later in `sb` (it was read ahead of its turn), and
+nothing else is wrong. -/
+def knownC08F1 (ss sb : List String) (hasRet : Bool) (retCls retState : String) (closed : Bool) (single : Bool) : Bool :=
+  match sb with
+  | x :: rest =>
+    !(isSuffix sb ss || isSuffix (dedupHead sb) ss)
+    && isSuffix rest ss && rest.contains x && rest.head? != some x
+    && holdsStream ss [] hasRet retCls retState closed single
+  | [] => false
+
 end GoSup.Spec.C08
